@@ -53,6 +53,8 @@ type JRound struct {
 }
 
 type JRoundImpl struct {
+	Reports    [][]JCR `json:"reports,omitempty"` // what Reports handed to the encoder for this outcome (network runs)
+	HasReports bool    `json:"hasReports,omitempty"`
 	Err     string    `json:"err,omitempty"`
 	Outcome *JOutcome `json:"outcome"`
 	Bytes   string    `json:"bytes"`
@@ -207,6 +209,9 @@ func (w *roundWorld) refillPools() {
 	}
 	for len(w.results) < target {
 		uid := genUpkeepID(r, r.Chance(50))
+		if r.Chance(6) {
+			uid = genUpkeepIDOther(r)
+		}
 		if len(w.results) > 0 && r.Chance(30) {
 			// another log of an upkeep that already has results: same upkeep id, different unit of work
 			prev := w.results[r.Intn(len(w.results))]
@@ -492,7 +497,7 @@ func (w *roundWorld) genRoundObservations(em *Emitter) []genObs {
 	// --- Byzantine observations
 	for i := 0; i < nByz; i++ {
 		o := &obs[i].obs
-		kind := r.Intn(11)
+		kind := r.Intn(13)
 		em.Hit(fmt.Sprintf("byz-kind-%d", kind))
 		switch kind {
 		case 0: // near-duplicates of honest results differing in exactly one field
@@ -611,6 +616,34 @@ func (w *roundWorld) genRoundObservations(em *Emitter) []genObs {
 					setResult(&honest[hv].obs, t[(hk+1)%3])
 				}
 			}
+		case 11: // an upkeep whose type is neither condition nor log, the same result listed twice (adjacent and not)
+			{
+				uid := genUpkeepIDOther(r)
+				x := genResult(r, uid, w.height)
+				var mid []ocr2keepers.CheckResult
+				if len(w.results) > 0 && r.Bool() {
+					mid = append(mid, w.results[r.Intn(len(w.results))])
+				}
+				o.Performable = append(append([]ocr2keepers.CheckResult{x}, mid...), x)
+				if r.Chance(40) {
+					px := ocr2keepers.CoordinatedBlockProposal{UpkeepID: uid, Trigger: x.Trigger, WorkID: x.WorkID}
+					o.UpkeepProposals = append(o.UpkeepProposals, px, px)
+				}
+			}
+		case 12: // block history with a NON-adjacent repeated block number: [X, Y, X]
+			{
+				top := w.height + uint64(r.Range(1, 40))
+				hx, hy := genHash(r), genHash(r)
+				o.BlockHistory = ocr2keepers.BlockHistory{{Number: ocr2keepers.BlockNumber(top), Hash: hx}, {Number: ocr2keepers.BlockNumber(top - 1), Hash: hy}, {Number: ocr2keepers.BlockNumber(top), Hash: hx}}
+				if r.Bool() {
+					o.BlockHistory = append(o.BlockHistory, ocr2keepers.BlockKey{Number: ocr2keepers.BlockNumber(top - 2), Hash: genHash(r)}, ocr2keepers.BlockKey{Number: ocr2keepers.BlockNumber(top), Hash: hx})
+				}
+				for k := 0; k < r.Range(1, 3); k++ {
+					uid := genUpkeepID(r, r.Bool())
+					res := genResult(r, uid, top)
+					o.UpkeepProposals = append(o.UpkeepProposals, ocr2keepers.CoordinatedBlockProposal{UpkeepID: uid, Trigger: res.Trigger, WorkID: res.WorkID})
+				}
+			}
 		case 8: // proposal flood: too many, duplicates, wrong work id
 			for k := 0; k < r.Range(1, 14); k++ {
 				uid := genUpkeepID(r, r.Bool())
@@ -682,6 +715,16 @@ func runOutcome(node *Node, in JRound) (JRoundImpl, []byte) {
 	var prevBytes []byte
 	if in.Prev != nil {
 		prevBytes = must(fromJOutcome(*in.Prev).Encode())
+	}
+	// the node has already validated OTHER observations attributed to the same observers in this very sequence number
+	// (an abandoned epoch, an equivocating peer): that must leave no trace in the outcome
+	for k, ao := range aos {
+		alt := must(ocr2keepersv3.AutomationObservation{BlockHistory: ocr2keepers.BlockHistory{{Number: ocr2keepers.BlockNumber(900000 + k), Hash: [32]byte{byte(k + 1)}}}}.Encode())
+		if k > 0 && k%2 == 1 {
+			alt = aos[k-1].Observation
+		}
+		node.Plugin.ValidateObservation(context.Background(), ocr3types.OutcomeContext{SeqNr: in.Seq, PreviousOutcome: prevBytes}, nil,
+			ocr2plustypes.AttributedObservation{Observation: alt, Observer: ao.Observer})
 	}
 	raw, err := node.Plugin.Outcome(context.Background(), ocr3types.OutcomeContext{SeqNr: in.Seq, PreviousOutcome: prevBytes}, nil, aos)
 	impl := JRoundImpl{Bytes: hx(raw)}
